@@ -465,6 +465,30 @@ func extractAll() {
 		}
 		addBool("eioNewSocketRechecksClosed", recheck, rel)
 	}
+	// ---- serverConn.connect: is the connection's closed flag re-checked after the socket is stored ?
+	{
+		rel := "server_conn.go"
+		fd := findFunc(load(rel), "serverConn", "connect")
+		setPos, recheck := token.NoPos, false
+		if fd != nil {
+			ast.Inspect(fd, func(x ast.Node) bool {
+				switch n := x.(type) {
+				case *ast.CallExpr:
+					if se, ok := n.Fun.(*ast.SelectorExpr); ok && se.Sel.Name == "set" {
+						if inner, ok := se.X.(*ast.SelectorExpr); ok && inner.Sel.Name == "sockets" && setPos == token.NoPos {
+							setPos = n.Pos()
+						}
+					}
+				case *ast.SelectorExpr:
+					if n.Sel.Name == "closed" && setPos != token.NoPos && n.Pos() > setPos {
+						recheck = true
+					}
+				}
+				return true
+			})
+		}
+		addBool("sioConnectRechecksClosed", recheck, rel)
+	}
 	// ---- Socket.IO packet types
 	{
 		p := "parser/packet.go"
